@@ -392,7 +392,8 @@ def run(rep):
 
 def replay(rep, path):
     hbin = vlib.go_build("c18")
-    vlib.lake_build([EXE])
+    pr = vlib.prove(PROP, MODULES, exes=[EXE])
+    rep.add_proof(pr, "lake build BMV.Props.C18 && lake env lean <#audit_module BMV.Props.C18>")
     obj = json.load(open(path))
     text = obj.get("lines") or obj.get("machine") or ""
     if not text.strip().startswith("M "):
